@@ -5,6 +5,15 @@ import "math/bits"
 // C35: mark-bit allocation is collision-free and reversible.
 // Sym: mask (all 2^32 masks).  Shape: k allocation calls (forked 0..K).
 
+// verifReachableState puts m into an arbitrary state reachable by allocations: i bits handed out
+// (i symbolic, 0..popcount).  The number<->mark mapping must depend on the mask only.
+func verifReachableState(m *MarkBitsManager, pop int) {
+	i := int(verifU8("allocated"))
+	verifAssume(i <= pop)
+	m.numBitsAllocated = i
+	m.numFreeBits = pop - i
+}
+
 // VerifHarness_C35_alloc: k successive NextSingleBitMark calls on an arbitrary mask.
 func VerifHarness_C35_alloc() {
 	mask := verifU32("mask")
@@ -86,6 +95,7 @@ func VerifHarness_C35_roundtrip() {
 	n := verifU32("n")
 	m := NewMarkBitsManager(mask, "h")
 	pop := bits.OnesCount32(mask)
+	verifReachableState(m, pop)
 	mark, err := m.MapNumberToMark(int(n))
 	inRange := uint64(n) < uint64(1)<<uint(pop)
 	if err != nil {
@@ -108,6 +118,7 @@ func VerifHarness_C35_reverse() {
 	a := verifU32("a")
 	b := verifU32("b")
 	m := NewMarkBitsManager(mask, "h")
+	verifReachableState(m, bits.OnesCount32(mask))
 	na, ea := m.MapMarkToNumber(a)
 	nb, eb := m.MapMarkToNumber(b)
 	verifAssert("reject-outside", (ea != nil) == (a&mask != a))
